@@ -29,6 +29,7 @@ M = spec["model"]
 N, W = M["N"], M["W"]
 TRACE = spec["trace"]
 WAIT = float(os.environ.get("REPLAY_WAIT", "3"))
+HOLD = float(os.environ.get("REPLAY_HOLD", "8"))  # longest time a thread with nothing scheduled is held back
 
 
 class Ctl:
@@ -88,8 +89,17 @@ class Ctl:
                 return None
             q = self.expected.get(t)
             if not q:
+                # nothing (more) is scheduled for this thread: in the model it does not move while the rest of the schedule plays.
+                # Hold it here until every step has been played (or the replay has given up), then let it run on -- otherwise a
+                # worker the model never schedules would grab work the schedule gives to another thread
                 self._complete_previous(t)
                 self.cv.notify_all()
+                t0 = time.time()
+                while not self.free and len(self.complete) < self.nsteps and time.time() - t0 < HOLD:
+                    self.cv.wait(0.05)
+                    for th, qq in self.expected.items():
+                        if not qq:
+                            self._complete_previous(th)
                 return None
             e = q[0]
             if e["g"] == "INTERRUPT":
